@@ -39,6 +39,9 @@ type mockBuild struct {
 	MoqFailed   []string
 	Unbuildable []string
 	CorpDir     string
+	// BadCells: cells moq failed on or whose output does not compile, with the message
+	BadCells map[string]string
+	AllCells []*corpus.Cell
 }
 
 var pkgErrRe = regexp.MustCompile(`(?m)^# (corp/cells/[^\s\[]+)`)
@@ -49,7 +52,7 @@ var pkgErrRe = regexp.MustCompile(`(?m)^# (corp/cells/[^\s\[]+)`)
 func buildMockHarness(s *Scratch, moqBin string, spec corpus.Spec, only string) (*mockBuild, error) {
 	c := corpus.Generate(spec)
 	root := filepath.Join(s.Dir, "corp")
-	b := &mockBuild{Corpus: c, CorpDir: root}
+	b := &mockBuild{Corpus: c, CorpDir: root, BadCells: map[string]string{}}
 	write := func(rel, content string) error {
 		p := filepath.Join(root, rel)
 		if err := os.MkdirAll(filepath.Dir(p), 0o755); err != nil {
@@ -66,6 +69,7 @@ func buildMockHarness(s *Scratch, moqBin string, spec corpus.Spec, only string) 
 			return nil, err
 		}
 	}
+	b.AllCells = c.Cells
 	var cells []*corpus.Cell
 	for _, cell := range c.Cells {
 		if only != "" && cell.ID != only {
@@ -95,6 +99,7 @@ func buildMockHarness(s *Scratch, moqBin string, spec corpus.Spec, only string) 
 	for i, cell := range cells {
 		if !res[i].ok {
 			b.MoqFailed = append(b.MoqFailed, cell.ID+" ["+strings.Join(cell.MoqArgs(), " ")+"]: "+res[i].msg)
+			b.BadCells[cell.ID] = "moq failed: " + res[i].msg
 			continue
 		}
 		outFile := filepath.Join(root, cell.Dir(), "mock_gen.go")
@@ -173,6 +178,7 @@ func buildMockHarness(s *Scratch, moqBin string, spec corpus.Spec, only string) 
 		for _, cell := range good {
 			if msg, isBad := bad[mockPkgPath(cell)]; isBad {
 				b.Unbuildable = append(b.Unbuildable, cell.ID+" ["+strings.Join(cell.MoqArgs(), " ")+"]: "+strings.TrimSpace(msg))
+				b.BadCells[cell.ID] = "generated mock does not compile: " + strings.TrimSpace(msg)
 				continue
 			}
 			if msg, isBad := bad[cell.ImportPath()]; isBad {
@@ -292,6 +298,18 @@ func MockCheck(prop, tier string) error {
 		}
 		for _, c := range b.Cells {
 			flagSets[strings.Join(c.Flags.Args(), " ")+fmt.Sprint(c.Flags.Alias)] = true
+		}
+		if prop == "C07" {
+			// the -stub zero-value path must exist for every shape: a package whose
+			// mocks build without -stub but not with it has no such path
+			for _, line := range stubBuildFindings(b, sd, spec, tree, tier, known, len(violations)+len(knownHits)) {
+				if strings.HasPrefix(line, "KNOWN-FINDING") {
+					knownHits = append(knownHits, line)
+				} else if !seenClass["stub-mock-does-not-build"] {
+					seenClass["stub-mock-does-not-build"] = true
+					violations = append(violations, line)
+				}
+			}
 		}
 		buildInfo = append(buildInfo, map[string]any{"corpus_seed": sd, "cells_built": len(b.Cells), "moq_failed": b.MoqFailed, "unbuildable_cells": b.Unbuildable})
 		outDir := filepath.Join(sub.Dir, "out")
@@ -496,6 +514,85 @@ func confirmMockViolation(b *mockBuild, file, prop string, seed uint64, spec cor
 		}
 	}
 	return fmt.Sprintf("VIOLATION property=%s replay=%s class=%s cell=%s :: %s", prop, dst, rp.Class, rp.CellID, detail), false, nil
+}
+
+// stubBuildFindings reports -stub cells that moq could not generate or whose
+// output does not compile although a non-stub cell of the same package builds.
+func stubBuildFindings(b *mockBuild, seed uint64, spec corpus.Spec, tree, tier string, known []KnownFinding, n int) []string {
+	built := map[string]bool{}
+	for _, c := range b.Cells {
+		if !c.Flags.Stub {
+			built[c.Pkg.ID] = true
+		}
+	}
+	var out []string
+	for _, c := range b.AllCells {
+		msg, bad := b.BadCells[c.ID]
+		if !bad || !c.Flags.Stub || !built[c.Pkg.ID] {
+			continue
+		}
+		rp := map[string]any{"property": "C07", "class": "stub-mock-does-not-build", "engine": "mocksim-build", "verif_seed": seed, "tier": tier,
+			"corpus": spec, "cell_id": c.ID, "cell": "moq " + strings.Join(c.MoqArgs(), " "), "message": msg, "repo_tree_hash": tree, "source": c.Pkg.Source,
+			"trace": []string{"moq " + strings.Join(c.MoqArgs(), " ") + " in a copy of package " + c.Pkg.ID, msg, "the same package generated without -stub builds"}}
+		os.MkdirAll(ReplayDir, 0o755)
+		dst := filepath.Join(ReplayDir, fmt.Sprintf("C07-%d-b%d.json", seed, n+len(out)))
+		data, _ := json.MarshalIndent(rp, "", " ")
+		os.WriteFile(dst, data, 0o644)
+		if k := IsKnown(known, "C07", "stub-mock-does-not-build"); k != nil {
+			out = append(out, fmt.Sprintf("KNOWN-FINDING: property=C07 %s", k.Text))
+			continue
+		}
+		out = append(out, fmt.Sprintf("VIOLATION property=C07 replay=%s class=stub-mock-does-not-build cell=%s :: with -stub the mock of package %s cannot be built (%s) although it builds without -stub: no zero-value path exists for this shape",
+			dst, c.ID, c.Pkg.ID, firstLines(msg, 2)))
+		break
+	}
+	return out
+}
+
+// MockBuildReplay rebuilds one cell and reports whether it still fails.
+func MockBuildReplay(path string) error {
+	data, err := os.ReadFile(path)
+	if err != nil {
+		return Fatal2("%v", err)
+	}
+	var rp struct {
+		Property string      `json:"property"`
+		CellID   string      `json:"cell_id"`
+		Corpus   corpus.Spec `json:"corpus"`
+	}
+	if err := json.Unmarshal(data, &rp); err != nil || rp.Corpus.NPkgs == 0 {
+		return Fatal2("bad replay file")
+	}
+	s, err := NewScratch("replay")
+	if err != nil {
+		return Fatal2("%v", err)
+	}
+	defer s.Remove()
+	moqDir, err := CopyRepo(s)
+	if err != nil {
+		return Fatal2("%v", err)
+	}
+	moqBin, err := BuildMoq(s, moqDir)
+	if err != nil {
+		return err
+	}
+	b, err := buildMockHarness(s, moqBin, rp.Corpus, rp.CellID)
+	if b != nil {
+		if msg, bad := b.BadCells[rp.CellID]; bad {
+			fmt.Println("  ", msg)
+			fmt.Printf("VIOLATION property=%s replay=%s (reproduced)\n", rp.Property, path)
+			return &ExitError{Code: 1}
+		}
+		fmt.Println("not reproduced on the current tree")
+		return nil
+	}
+	// the only cell of this build failed: buildMockHarness reports that as "no cell could be built"
+	if err != nil && strings.Contains(err.Error(), "no cell of the corpus could be built") {
+		fmt.Println("  ", firstLines(err.Error(), 6))
+		fmt.Printf("VIOLATION property=%s replay=%s (reproduced)\n", rp.Property, path)
+		return &ExitError{Code: 1}
+	}
+	return err
 }
 
 func classOfReplay(file string) string {
